@@ -100,7 +100,7 @@ fn run(args: vcore::Args) -> i32 {
         return vcheck::replay_report("C18", v);
     }
     let mut rep = Report::new("C18", tier, "model_checking");
-    rep.max_samples = 10;
+    rep.max_samples = 6; // histories first; raised below for the ENUM families
     rep.rule = "SEQ: every history (no merging: the key is the full history, the graph is private) of insert/re-insert/remove over ids 0..3 (introduced in order) and a 5-vector alphabet, on one real index per metric, each state built twice; after every transition every alphabet query x k in {0,1,2,size,size+1} x ef in {default,0,1,size+1} is judged (<=k, distinct, present, true distance, sorted, non-empty, batch = one-by-one, accessors = reference map); a state is non-trivial when the index is non-empty. ENUM: explicit finite products of vectors over {0,+-1,1e-20,1e20(,1e-3)} through every public kernel / exact search / zone map / quantiser / GrafeoDB entry point; a case is non-trivial when the expected distance is non-zero (kernels), the answer is a strict subset (exact), a quantisation step is non-zero, or the database holds >= 2 vectors".into();
     let mut sink = Sink::default();
     let mut sizes = serde_json::Map::new();
@@ -181,6 +181,7 @@ fn run(args: vcore::Args) -> i32 {
         }
     }
     rep.traces_validated = rep.transitions;
+    rep.max_samples = 12;
     rep.set("hnsw_layers", json!(layers));
     rep.set("hnsw_counters", json!(stats_all));
     rep.set("hnsw_short_result_witnesses", json!(witness_all.iter().map(|(k, v)| (k.clone(), v.1.clone())).collect::<BTreeMap<_, _>>()));
